@@ -43,6 +43,8 @@ type c06Plan struct {
 	FaultOn string `json:"fault_on,omitempty"` // "" anywhere | "passive-doc0-write" | "active-doc-writes"
 	// Legacy: the replication speaks the revision-tree (version 3) protocol only
 	Legacy bool `json:"legacy,omitempty"`
+	// CheckpointMs: time-based checkpoint interval of the replication (0: the default, 5 s)
+	CheckpointMs int `json:"checkpoint_ms,omitempty"`
 }
 
 const c06Docs = 4
@@ -55,8 +57,10 @@ func init() {
 	for _, id := range []string{"C06", "C17S"} {
 		id := id
 		verifsim.Register(&verifsim.Property{
-			ID:       id,
-			Generate: func(seed uint64, tier string, index int) json.RawMessage { return c06GenerateFor(id, seed, tier, index) },
+			ID: id,
+			Generate: func(seed uint64, tier string, index int) json.RawMessage {
+				return c06GenerateFor(id, seed, tier, index)
+			},
 			Config: func(p json.RawMessage) verifsim.Config {
 				var pl c06Plan
 				_ = json.Unmarshal(p, &pl)
@@ -96,6 +100,7 @@ func c06Generate(seed uint64, tier string, index int) json.RawMessage {
 	p.Direction = []string{"push", "pull", "pushAndPull", "pushAndPull"}[r.Intn(4)]
 	p.Continuous = !r.Chance(250)
 	p.Legacy = r.Chance(300)
+	p.CheckpointMs = []int{0, 0, 20, 200, 1000}[r.Intn(5)]
 	p.Resolver = "default" // the community edition supports the default resolver only
 	p.Node = restNodeOpts{RevCacheSize: []int{-1, 0}[r.Intn(2)], FeedWorkers: 1, NumVB: 2, SyncFn: `function(doc){ channel("A"); }`}
 	for t := 0; t < r.Range(2, 3); t++ {
@@ -239,7 +244,7 @@ func c06Body(env *verifsim.Env, p c06Plan, mon *c17Mon) *verifsim.Violation {
 	s.SetFaultsEnabled(false) // faults belong to the workload, not to node start-up
 	w.net.Watch = []string{c06LegacyAccepted}
 	ao, po := p.Node, p.Node
-	ao.DBName, ao.SGReplicate, ao.LegacyRepl = "adb", true, p.Legacy
+	ao.DBName, ao.SGReplicate, ao.LegacyRepl, ao.CheckpointMs = "adb", true, p.Legacy, p.CheckpointMs
 	po.DBName = "pdb"
 	passive, err := w.startNode("passive", po, nil)
 	if err != nil {
